@@ -256,3 +256,119 @@ def nested_tags(depth, cls=2, tag=0):
     for _ in range(depth):
         b = bytes([(cls << 6) | 0x20 | tag]) + _len(len(b)) + b
     return b
+
+
+# ---------------------------------------------------------------------------------------------
+# the harness's own DER writer/reader (independent of asyncssh.asn1) and builders for key files that
+# carry the OPTIONAL fields of the structures asyncssh parses
+
+def tlv(tag, content):
+    return bytes([tag]) + _len(len(content)) + content
+
+
+def d_seq(*xs):
+    return tlv(0x30, b''.join(xs))
+
+
+def d_int(i):
+    return tlv(2, i.to_bytes(i.bit_length() // 8 + 1, 'big', signed=True))
+
+
+def d_octets(b):
+    return tlv(4, b)
+
+
+def d_oid(s):
+    c = [int(x) for x in s.split('.')]
+    out = b''
+    for v in [c[0] * 40 + c[1]] + c[2:]:
+        ch = [v & 0x7f]
+        v >>= 7
+        while v:
+            ch.append(0x80 | (v & 0x7f))
+            v >>= 7
+        out += bytes(reversed(ch))
+    return tlv(6, out)
+
+
+D_NULL = b'\x05\x00'
+
+
+def d_parse(b, i=0):
+    """-> (tag, content, end)"""
+    tag = b[i]
+    n = b[i + 1]
+    i += 2
+    if n & 0x80:
+        k = n & 0x7f
+        n = int.from_bytes(b[i:i + k], 'big')
+        i += k
+    return tag, b[i:i + n], i + n
+
+
+def d_children(content):
+    out = []
+    i = 0
+    while i < len(content):
+        _, _, j = d_parse(content, i)
+        out.append(content[i:j])
+        i = j
+    return out
+
+
+PRF_OIDS = {'sha1': '1.2.840.113549.2.7', 'sha224': '1.2.840.113549.2.8', 'sha256': '1.2.840.113549.2.9',
+            'sha384': '1.2.840.113549.2.10', 'sha512': '1.2.840.113549.2.11'}
+PBES2_CIPHERS = {'aes128-cbc': ('2.16.840.1.101.3.4.1.2', 16, 16, 'AES'), 'aes192-cbc': ('2.16.840.1.101.3.4.1.22', 24, 16, 'AES'),
+                 'aes256-cbc': ('2.16.840.1.101.3.4.1.42', 32, 16, 'AES'), 'des3-cbc': ('1.2.840.113549.3.7', 24, 8, 'TripleDES')}
+
+
+def pbes2_encrypt(plain, pw, cipher, prf, keylen_present, prf_present, rng):
+    """EncryptedPrivateKeyInfo (PBES2/PBKDF2) written field by field; crypto by hashlib and cryptography."""
+    import hashlib
+    from cryptography.hazmat.primitives.ciphers import Cipher, algorithms, modes
+    from cryptography.hazmat.primitives import padding
+    coid, ks, bs, algname = PBES2_CIPHERS[cipher]
+    alg = getattr(algorithms, algname)
+    salt, iv, count = rng.randbytes(8), rng.randbytes(bs), 1000
+    key = hashlib.pbkdf2_hmac(prf, pw, salt, count, ks)
+    p = padding.PKCS7(bs * 8).padder()
+    data = p.update(plain) + p.finalize()
+    e = Cipher(alg(key), modes.CBC(iv)).encryptor()
+    ct = e.update(data) + e.finalize()
+    params = [d_octets(salt), d_int(count)]
+    if keylen_present:
+        params.append(d_int(ks))
+    if prf_present:
+        params.append(d_seq(d_oid(PRF_OIDS[prf]), D_NULL))
+    kdf = d_seq(d_oid('1.2.840.113549.1.5.12'), d_seq(*params))
+    return d_seq(d_seq(d_oid('1.2.840.113549.1.5.13'), d_seq(kdf, d_seq(d_oid(coid), d_octets(iv)))), d_octets(ct))
+
+
+D_ATTRIBUTES = tlv(0xa0, d_seq(d_oid('2.5.29.15'), tlv(0x31, tlv(3, b'\x00\x80'))))
+EC_CURVE_OIDS = {'ecdsa-sha2-nistp256': '1.2.840.10045.3.1.7', 'ecdsa-sha2-nistp384': '1.3.132.0.34', 'ecdsa-sha2-nistp521': '1.3.132.0.35',
+                 'ecdsa-sha2-1.3.132.0.10': '1.3.132.0.10'}
+
+
+def optional_field_variants(alg, pyca_key):
+    """[(variant name, DER private key file)] - unencrypted structures with OPTIONAL fields present / absent."""
+    from cryptography.hazmat.primitives import serialization as ser
+    out = []
+    p8 = pyca_key.private_bytes(ser.Encoding.DER, ser.PrivateFormat.PKCS8, ser.NoEncryption())
+    ch = d_children(d_parse(p8)[1])
+    out.append(('pkcs8 plain', p8))
+    out.append(('pkcs8 +attributes[0]', d_seq(*ch, D_ATTRIBUTES)))
+    if alg in ('ssh-ed25519', 'ssh-ed448'):
+        pub = pyca_key.public_key().public_bytes(ser.Encoding.Raw, ser.PublicFormat.Raw)
+        out.append(('pkcs8 v2 +publicKey[1]', d_seq(d_int(1), ch[1], ch[2], tlv(0x81, b'\x00' + pub))))
+        out.append(('pkcs8 v2 +attributes[0] +publicKey[1]', d_seq(d_int(1), ch[1], ch[2], D_ATTRIBUTES, tlv(0x81, b'\x00' + pub))))
+    if alg in EC_CURVE_OIDS:
+        curve = tlv(0xa0, d_oid(EC_CURVE_OIDS[alg]))
+        ec = d_children(d_parse(d_parse(ch[2])[1])[1])            # version, privateKey, [1] publicKey
+        out.append(('pkcs8 ECPrivateKey -publicKey', d_seq(ch[0], ch[1], d_octets(d_seq(ec[0], ec[1])))))
+        out.append(('pkcs8 ECPrivateKey +parameters[0] +publicKey[1]', d_seq(ch[0], ch[1], d_octets(d_seq(ec[0], ec[1], curve, ec[2])))))
+        out.append(('pkcs8 ECPrivateKey +parameters[0] -publicKey', d_seq(ch[0], ch[1], d_octets(d_seq(ec[0], ec[1], curve)))))
+        sec1 = pyca_key.private_bytes(ser.Encoding.DER, ser.PrivateFormat.TraditionalOpenSSL, ser.NoEncryption())
+        sc = d_children(d_parse(sec1)[1])
+        out.append(('sec1 plain', sec1))
+        out.append(('sec1 ECPrivateKey -publicKey', d_seq(sc[0], sc[1], sc[2])))
+    return out
